@@ -2,8 +2,10 @@
 C10 — no operation leaks a lock; no interleaving deadlocks.
 -/
 import SC.Lemmas.Conc
+import SC.Table
+import SC.Generated.Tables
 namespace SC.Props
-open SC.Conc
+open SC SC.Conc
 
 /-- C10 (a): the lock bracket of an operation, as written in `_LoadAndSave` /
 `_BufferedLoadAndSave` (`__enter__` releases what it took when the load raises; `__exit__` saves
@@ -55,5 +57,16 @@ example : Locks.Deadlocked [⟨[0], some 1⟩, ⟨[1], some 0⟩] := by
   rcases hth with rfl | rfl
   · simp at hw; subst hw; exact ⟨⟨[1], some 0⟩, by simp, by simp, rfl⟩
   · simp at hw; subst hw; exact ⟨⟨[0], some 1⟩, by simp, by simp, rfl⟩
+
+/-- OBLIGATION on the current source: A LOAD TAKES NO LOCK.  Every load goes through the in-place
+merge `_update`; in every concrete class the merge calls no public mutator on the collection (each
+would enter the load-and-save context, i.e. acquire the thread lock) and enters no context but the
+suspension of synchronisation.  This is the hypothesis under which reading a synced operand inside
+another collection's write context acquires nothing (`C10_no_deadlock_audited`); the pinned tree
+violated it (`SyncedList._update` extended through the public `extend()`: two mirror-image writes
+could deadlock - fixed by 37b4be4). -/
+theorem C10_merge_takes_no_lock_table :
+    ∀ f ∈ Generated.families, ∀ c ∈ f.classes,
+      c.mergeCalls = [] ∧ c.mergeCtxs.all (fun x => x == Ctx.suspendSync) = true := by decide
 
 end SC.Props
